@@ -195,4 +195,4 @@ def make_sphere(sd, o, center):
     from holopy.scattering import Sphere
     k = wavevec(o)
     m = complex(sd["m"][0], sd["m"][1]) if sd["m"][1] else sd["m"][0]
-    return Sphere(n=m * o["nm"], r=sd["x"] / k, center=tuple(center))
+    return Sphere(n=m * o["nm"], r=sd["x"] / k, center=None if center is None else tuple(center))
